@@ -1,7 +1,7 @@
 import json,sys
 e=json.load(open('/verif/evidence/%s.json'%sys.argv[1]))
 seen=set()
-for v in e['coverage']['violations_detail']:
+for v in (e['coverage']['violations_detail'] or []):
     job={k:v['job'][k] for k in v['job'] if k!='__harness'}
     key=(v['kind'],v['label'],v['site'])
     print(v['kind'],v['label'],v['site'],job,v['vals'],v['msg'][:90],'|',v['status'][:60],'|',v.get('known_as') or '')
